@@ -34,8 +34,9 @@ enum OpKind
   OP_ATTACH_DERIVED  // a=key b=token index: Attach(GetCurrent().SetValue(key, v))
 };
 const int kSlots = 80, kTokens = 80, kScopes = 12, kSpans = 4, kBase = 3;
-const int kKeys        = 4;
-const char *kKeyName[] = {"k0", "k1", "key-two", ""};  // includes the empty key
+const int kKeys        = 6;
+// includes the empty key, a key that is a prefix of others and one that extends another
+const char *kKeyName[] = {"k0", "k1", "key-two", "", "k", "k00"};
 
 struct MCtx  // model of one context value: bindings by key, plus the active span
 {
@@ -80,11 +81,49 @@ struct TaskState
   int idx = 0;
 };
 
+// Values of several ContextValue alternatives, including the falsy ones (false, 0, 0.0).
+// make_value(v) is what is stored for the unique id v, canon_of(v) what the model expects
+// value_of() to read back.
+const int64_t kDbl = 2000000000000ll, kU64 = 4000000000000ll;
+context::ContextValue make_value(int64_t v)
+{
+  switch (v & 3)
+  {
+    case 0:
+      return context::ContextValue((int64_t)((v & 15) == 4 ? 0 : v));
+    case 1:
+      return context::ContextValue((bool)((v >> 2) & 1));
+    case 2:
+      return context::ContextValue((v & 15) == 6 ? 0.0 : (double)v);
+    default:
+      return context::ContextValue((uint64_t)v);
+  }
+}
+int64_t canon_of(int64_t v)
+{
+  switch (v & 3)
+  {
+    case 0:
+      return (v & 15) == 4 ? 0 : v;
+    case 1:
+      return -10 - ((v >> 2) & 1);
+    case 2:
+      return ((v & 15) == 6 ? 0 : v) + kDbl;
+    default:
+      return v + kU64;
+  }
+}
 int64_t value_of(const context::ContextValue &v, bool &present)
 {
   present = !nostd::holds_alternative<nostd::monostate>(v);
   if (nostd::holds_alternative<int64_t>(v))
     return nostd::get<int64_t>(v);
+  if (nostd::holds_alternative<bool>(v))
+    return -10 - (nostd::get<bool>(v) ? 1 : 0);
+  if (nostd::holds_alternative<double>(v))
+    return (int64_t)nostd::get<double>(v) + kDbl;
+  if (nostd::holds_alternative<uint64_t>(v))
+    return (int64_t)nostd::get<uint64_t>(v) + kU64;
   return INT64_MIN;
 }
 
@@ -199,10 +238,10 @@ void run_program(int idx, const TaskProg &t)
           break;
         int64_t v = ++uid;
         vsim::yield();
-        context::Context nc = src.real->SetValue(kKeyName[op.b], v);
+        context::Context nc = src.real->SetValue(kKeyName[op.b], make_value(v));
         vsim::yield();
         dst.model            = src.model;
-        dst.model.kv[op.b]   = v;
+        dst.model.kv[op.b]   = canon_of(v);
         dst.cid              = (int)op.c;
         dst.real.reset(new context::Context(nc));
         compare_ctx(*dst.real, dst.model, "new context from SetValue", idx);
@@ -220,8 +259,8 @@ void run_program(int idx, const TaskProg &t)
           if ((op.b >> k) & 1)
           {
             int64_t v      = ++uid;
-            m[kKeyName[k]] = v;
-            nm.kv[k]       = v;
+            m[kKeyName[k]] = make_value(v);
+            nm.kv[k]       = canon_of(v);
           }
         if (m.empty())
           break;
@@ -249,9 +288,9 @@ void run_program(int idx, const TaskProg &t)
         if (dst.real)
           break;
         int64_t v           = ++uid;
-        context::Context nc = context::RuntimeContext::SetValue(kKeyName[op.a], v);
+        context::Context nc = context::RuntimeContext::SetValue(kKeyName[op.a], make_value(v));
         dst.model           = ts.stack.empty() ? MCtx() : ts.stack.back().model;
-        dst.model.kv[op.a]  = v;
+        dst.model.kv[op.a]  = canon_of(v);
         dst.cid             = (int)op.c;
         dst.real.reset(new context::Context(nc));
         compare_ctx(*dst.real, dst.model, "RuntimeContext::SetValue result", idx);
@@ -272,9 +311,10 @@ void run_program(int idx, const TaskProg &t)
         if (mytoks[op.b].tok)
           break;
         int64_t v           = ++uid;
-        context::Context nc = context::RuntimeContext::GetCurrent().SetValue(kKeyName[op.a], v);
+        context::Context nc =
+            context::RuntimeContext::GetCurrent().SetValue(kKeyName[op.a], make_value(v));
         MCtx nm             = ts.stack.empty() ? MCtx() : ts.stack.back().model;
-        nm.kv[op.a]         = v;
+        nm.kv[op.a]         = canon_of(v);
         int cid             = W->next_cid++;
         mytoks[op.b].tok    = context::RuntimeContext::Attach(nc);
         mytoks[op.b].cid    = cid;
@@ -399,7 +439,7 @@ void generate(const std::string &, Rng &wl, Rng &fl, Case &c)
       }
       else if (r < 0.26 && next_slot < kSlots)
       {
-        p.ops.push_back({OP_SETVALUES, any_slot(), (int64_t)wl.range(1, 15), next_slot, 0});
+        p.ops.push_back({OP_SETVALUES, any_slot(), (int64_t)wl.range(1, 63), next_slot, 0});
         my_slots.push_back(next_slot++);
       }
       else if (r < 0.30 && next_slot < kSlots)
